@@ -25,6 +25,7 @@ RULE = ("(a) bounded-exhaustive: every expression AST with <= K operator nodes (
         "gives the same. non-trivial = >=1 operator; distinct by expression text + context")
 ASSUMPTIONS = ["operator nodes are recognised structurally (BinaryOpBase/UnaryOpBase whose operator string is a Fortran "
                "operator), not by class name"]
+ENUM_CASES = {"quick": 400, "thorough": 3000}
 DECIDING_MONITORS = ("expressions_checked",)
 EXHAUSTIVE = {"quick": True, "thorough": True,
               "note": "exhaustive only for sub-space (a): all ASTs with <=K operator nodes over the 27 operator spellings; "
@@ -101,6 +102,7 @@ def fill(t, it):
     return ("bin", t[1], fill(t[2], it), fill(t[3], it))
 
 
+OPLIKE = ["ge", "or", "eq", "not", "lt", "and", "ne", "true"]
 _ENUM = {}
 
 
@@ -111,6 +113,12 @@ def enumerated(K):
         for k in range(1, K + 1):
             for t in enum_trees(k):
                 it = itertools.cycle(LEAVES[(n * 7) % len(LEAVES):] + LEAVES[:(n * 7) % len(LEAVES)])
+                out.append(with_parens(fill(t, it)))
+                n += 1
+        # operands spelled like the word of a dotted operator (legal names), K <= 2 only
+        for k in range(1, min(K, 2) + 1):
+            for t in enum_trees(k):
+                it = itertools.cycle(OPLIKE[n % len(OPLIKE):] + OPLIKE[:n % len(OPLIKE)])
                 out.append(with_parens(fill(t, it)))
                 n += 1
         _ENUM[K] = out
@@ -162,21 +170,51 @@ def render(e, compact):
     return to_src(t(e))
 
 
+def _oplike_between_dots(e):
+    """an operand spelled like an operator word with a dotted operator directly on each side"""
+    flat = []
+
+    def fl(x):
+        k = x[0]
+        if k == "leaf":
+            flat.append(("leaf", x[1]))
+        elif k == "par":
+            flat.append(("open", "("))
+            fl(x[1])
+            flat.append(("close", ")"))
+        elif k == "un":
+            flat.append(("op", x[1]))
+            fl(x[2])
+        else:
+            fl(x[2])
+            flat.append(("op", x[1]))
+            fl(x[3])
+
+    fl(e)
+    for i, (k, t) in enumerate(flat):
+        if k == "leaf" and t.lower() in OPLIKE and 0 < i < len(flat) - 1:
+            a, b = flat[i - 1], flat[i + 1]
+            if a[0] == "op" and a[1].startswith(".") and b[0] == "op" and b[1].startswith("."):
+                return True
+    return False
+
+
 def check_expr(e, text, context="expr"):
     """Returns violation dict or None."""
     exp = to_strict(paren_of(e)).lower()
     known = has_defbin_with_dotted_right(e) or text_has_defbin_dotted_right(text)
+    oplike = _oplike_between_dots(e)
     try:
         if context == "expr":
             node = fp.F03.Expr(text)
         else:
             node = _embedded(text, context)
             if isinstance(node, dict):
-                node["key"] = ("defined-binary-op-with-dotted-right" if known else node["key"])
+                node["key"] = ("defined-binary-op-with-dotted-right" if known else ("operator-like-name-between-dotted-operators" if oplike else node["key"]))
                 return node
     except fp.NoMatchError:
-        return viol("defined-binary-op-with-dotted-right" if known else "valid-expression-rejected",
-                    "Expr(%r) raised NoMatchError" % text, payload={"mode": "expr", "text": text, "expected": exp, "context": context, "known": known})
+        return viol("defined-binary-op-with-dotted-right" if known else ("operator-like-name-between-dotted-operators" if oplike else "valid-expression-rejected"),
+                    "Expr(%r) raised NoMatchError" % text, payload={"mode": "expr", "text": text, "expected": exp, "context": context, "known": known, "oplike": oplike})
     except Exception as err:
         fr = fp.fparser_frames(err.__traceback__)
         where = fr[-1][0] if fr else "?"
@@ -184,8 +222,8 @@ def check_expr(e, text, context="expr"):
                     payload={"mode": "expr", "text": text, "expected": exp, "context": context, "known": known})
     got = tree_paren(node)
     if got != exp:
-        return viol("defined-binary-op-with-dotted-right" if known else "grouping-differs",
-                    "%r: expected %s got %s" % (text, exp, got), payload={"mode": "expr", "text": text, "expected": exp, "context": context, "known": known})
+        return viol("defined-binary-op-with-dotted-right" if known else ("operator-like-name-between-dotted-operators" if oplike else "grouping-differs"),
+                    "%r: expected %s got %s" % (text, exp, got), payload={"mode": "expr", "text": text, "expected": exp, "context": context, "known": known, "oplike": oplike})
     if context == "expr":
         s2 = str(node)
         try:
@@ -231,7 +269,10 @@ def _embedded(text, context):
         # a single subscript is not wrapped in a list: take the Part_Ref's second item
         pr = fp.walk(tree, fp.F03.Part_Ref)
         pr = [p for p in pr if str(p.items[0]).lower() == "vf_arr"]
-        return pr[0].items[1]
+        node = pr[0].items[1]
+        if type(node).__name__.endswith("_List") and len(node.items) == 1:
+            node = node.items[0]
+        return node
     if not nodes:
         if context == "arg":
             cs = fp.walk(tree, fp.F03.Call_Stmt)
@@ -278,7 +319,7 @@ def check(payload):
         e = payload.get("ast")
         text = payload["text"]
         ctx = payload.get("context", "expr")
-        key = "defined-binary-op-with-dotted-right" if payload.get("known") else "grouping-differs"
+        key = "defined-binary-op-with-dotted-right" if payload.get("known") else ("operator-like-name-between-dotted-operators" if payload.get("oplike") else "grouping-differs")
         try:
             node = fp.F03.Expr(text) if ctx == "expr" else _embedded(text, ctx)
             got = tree_paren(node) if not isinstance(node, dict) else "<rejected>"
